@@ -64,6 +64,8 @@ def hostOp (w : World) (h : Nat) (t : List String) : World × String :=
   | ["tcp_dropr", s] => w.opDropRead h (slotOf s)
   | ["tcp_dropw", s] => w.opDropWrite h (slotOf s)
   | ["count"] => w.opCount h
+  | ["countof", a] => (w.opCount (hostOf a)).map id id
+  | ["spawn_ticker"] => (w, "ok")
   | ["net_partition", a, b] => (w.ctlPartition (hostOf a) (hostOf b), "ok")
   | ["net_partition1", a, b] => (w.ctlPartitionOneway (hostOf a) (hostOf b), "ok")
   | ["net_repair", a, b] => (w.ctlRepair (hostOf a) (hostOf b), "ok")
